@@ -97,6 +97,8 @@ pub struct GenOpts {
     pub wide: bool,
     pub combining: bool,
     pub imgs: bool,
+    /// links with empty / fragment / relative targets and with no or whitespace-only content
+    pub odd_links: bool,
     pub sup: bool,
     pub strike: bool,
     pub br: bool,
@@ -125,6 +127,7 @@ impl Default for GenOpts {
             wide: true,
             combining: true,
             imgs: false,
+            odd_links: false,
             sup: false,
             strike: false,
             br: false,
@@ -153,6 +156,7 @@ impl GenOpts {
             ids: true,
             classes: false,
             imgs: true,
+            odd_links: false,
             sup: true,
             strike: true,
             br: true,
@@ -284,6 +288,8 @@ impl<'a> Gen<'a> {
                     self.linkn += 1;
                     let href = if self.rng.chance(1, 6) && !self.hrefs.is_empty() {
                         self.rng.pick(&self.hrefs).clone()
+                    } else if self.o.odd_links && self.rng.chance(1, 6) {
+                        self.rng.pick(&["", "#frag", "rel/path", "?q=1"]).to_string()
                     } else {
                         format!("http://h{}.example/{}", self.linkn, "p".repeat(self.rng.below(20)))
                     };
@@ -291,9 +297,20 @@ impl<'a> Gen<'a> {
                     let mut attrs = vec![("href".to_string(), href)];
                     self.maybe_id(&mut attrs);
                     *budget -= 1;
-                    let nw2 = self.rng.range(1, 2);
-                    let w = self.words(nw2);
-                    v.push(H::El("a".into(), attrs, vec![H::Text(w)]));
+                    if self.o.odd_links && self.rng.chance(1, 20) {
+                        // a link without content
+                        let kids = match self.rng.below(4) {
+                            0 => vec![],
+                            1 => vec![H::Text(" ".into())],
+                            2 => vec![H::El("em".into(), vec![], vec![])],
+                            _ => vec![H::El("span".into(), vec![], vec![H::Text(" ".into())])],
+                        };
+                        v.push(H::El("a".into(), attrs, kids));
+                    } else {
+                        let nw2 = self.rng.range(1, 2);
+                        let w = self.words(nw2);
+                        v.push(H::El("a".into(), attrs, vec![H::Text(w)]));
+                    }
                 }
                 9 if self.o.imgs => {
                     let alt = self.word();
